@@ -11,8 +11,45 @@ from vlib import core
 from vlib.core import Outcome, line
 
 KINDS = ['mem', 'sql', 'submem', 'subsql']
+KNOWN_SIZE_KEY = 'C08/sizes/preprocessed-vs-stored'
+
 ID_POOL = [b'a', b'a\x00', b'a\x00\x00', b'ab', b'b', b'\xff', b'\x00', b'', b'a\x01', b'b\x00',
            b'0123456789012345678901234', b'0123456789012345678901234\x00', b'\xff\xff', b'a\xff']
+
+
+CONTAINERS = ['list', 'tuple', 'set', 'frozenset', 'dictkeys', 'gen', 'iter', 'filter', 'islice',
+              'base_ids_filter']
+SINGLE_PASS = ('gen', 'iter', 'filter', 'islice', 'base_ids_filter')
+
+
+def make_ids(kind, ids, fd):
+  """The same ids packaged as every kind of iterable a caller may pass (re-iterable or single-pass)."""
+  ids = list(ids)
+  if kind == 'list':
+    return ids
+  if kind == 'tuple':
+    return tuple(ids)
+  if kind == 'set':
+    return set(ids)
+  if kind == 'frozenset':
+    return frozenset(ids)
+  if kind == 'dictkeys':
+    return dict.fromkeys(ids).keys()
+  if kind == 'gen':
+    return (c for c in ids)
+  if kind == 'iter':
+    return iter(ids)
+  if kind == 'filter':
+    return filter(lambda c: True, ids)
+  if kind == 'islice':
+    return itertools.islice(ids, len(ids))
+  if kind == 'base_ids_filter':
+    # the idiom `SubsetFederatedData(fd, (c for c in fd.client_ids() if keep(c)))`; ids outside fd are chained
+    # behind it so that the request denotes the same id set as the list form
+    want = set(ids)
+    have = set(fd.client_ids())
+    return itertools.chain(filter(want.__contains__, fd.client_ids()), [c for c in ids if c not in have])
+  raise ValueError(kind)
 
 
 def hx(b):
@@ -121,8 +158,11 @@ class C08(core.Property):
   RULE = ('cases = (table of 0..8 clients over order-adjacent byte ids in sorted or shuffled insertion order, '
           'extra clients of the larger base of the subset-wrapped roots, op sequence of length 0..6 over '
           'slice/subset/preprocess_client/preprocess_batch, bulk-get request, point probes, shuffle buffer/seed); '
+          'subset ops and subset roots built from every kind of id iterable (list, tuple, set, frozenset, dict keys, '
+          'generator, iter, filter, islice, filtered base.client_ids()); '
           'all four implementations (in-memory, SQLite, subset over in-memory, subset over SQLite) observed after '
-          'every op; non-trivial = >= 2 clients, >= 2 ops and at least one slice or subset that removes a client; '
+          'every op, alone and with several live readers over the same view object (zipped listings, suspended '
+          'iterators and shuffled streams across full passes, parent and derived view read alternately); non-trivial = >= 2 clients, >= 2 ops and at least one slice or subset that removes a client; '
           'distinct by case digest')
   TRUSTED = ['SQLite BLOB comparison = Python bytes comparison = lexicographic order on List Nat (exercised by the '
              'id pool: trailing zero bytes, prefixes, empty id, 0xff)',
@@ -133,6 +173,7 @@ class C08(core.Property):
                  'shuffled_clients is only observed on non-empty views (on an empty view every implementation '
                  'spins forever; outside the property)',
                  'client_size(s) means the stored number of examples (what the SQLite implementation reports)']
+  CASE_TIMEOUT_S = 30       # a stream that stops yielding is reported as a failing input, quickly
   QUICK_BUDGET_S = 110
   THOROUGH_BUDGET_S = 560
 
@@ -169,7 +210,7 @@ class C08(core.Property):
         self.sql_cache.pop(k0)   # the connection is closed when the last view holding it goes away
     return self.sql_cache[key]
 
-  def root(self, kind, big):
+  def root(self, kind, big, container='list'):
     table = [(h, r) for h, r, sel in big if sel]
     full = [(h, r) for h, r, _ in big]
     sel = [ub(h) for h, _ in table]
@@ -178,15 +219,16 @@ class C08(core.Property):
     if kind == 'sql':
       return self.sqlite_of(table)
     if kind == 'submem':
-      return self.fdm.SubsetFederatedData(
-          self.mem.InMemoryFederatedData({ub(h): raw_examples(r) for h, r in full}), sel)
-    return self.fdm.SubsetFederatedData(self.sqlite_of(full), sel)
+      base = self.mem.InMemoryFederatedData({ub(h): raw_examples(r) for h, r in full})
+    else:
+      base = self.sqlite_of(full)
+    return self.fdm.SubsetFederatedData(base, make_ids(container, sel, base))
 
   def apply_op(self, fd, op):
     if op[0] == 0:
       return fd.slice(ub(op[1]), ub(op[2]))
     if op[0] == 1:
-      return self.fdm.SubsetFederatedData(fd, [ub(h) for h in op[1]])
+      return self.fdm.SubsetFederatedData(fd, make_ids(op[2] if len(op) > 2 else 'list', [ub(h) for h in op[1]], fd))
     if op[0] == 2:
       return fd.preprocess_client(client_fn(op[1]))
     return fd.preprocess_batch(batch_fn(op[1]))
@@ -217,6 +259,18 @@ class C08(core.Property):
     except Exception as e:
       err = exc_name(e)
     o['getN'], o['getN_err'] = got, err
+    forms = []
+    for form in ('gen', 'iter', 'tuple', 'dictkeys' if len(set(req)) == len(req) else 'islice'):
+      g2, e2 = [], None
+      try:
+        for c, d in fd.get_clients(make_ids(form, [ub(h) for h in req], fd)):
+          g2.append(self.ds_obs(c, d))
+      except Exception as e:
+        e2 = exc_name(e)
+      if g2 != got or e2 != err:
+        forms.append(f'get_clients(<{form}> of {req}) gave {[g[0] for g in g2]} / {e2}, the list form '
+                     f'{[g[0] for g in got]} / {err}')
+    o['getN_forms'] = forms
     pr = []
     for h in probes:
       try:
@@ -230,6 +284,156 @@ class C08(core.Property):
       pr.append([a, b])
     o['probes'] = pr
     return o
+
+  # ------------------------------------------------------------ several live readers over ONE view object
+  def _ids(self, it):
+    return (hx(c) for c in it)
+
+  def _sizes(self, it):
+    return ([hx(c), int(n)] for c, n in it)
+
+  def _clients(self, it):
+    return (self.ds_obs(c, d) for c, d in it)
+
+  @staticmethod
+  def _drain_zip(*iters):
+    """Advances the readers in lock step until all are exhausted; returns what each one yielded."""
+    outs = [[] for _ in iters]
+    stop = object()
+    for row in itertools.zip_longest(*iters, fillvalue=stop):
+      for o, v in zip(outs, row):
+        if v is not stop:
+          o.append(v)
+    return outs
+
+  def interleave(self, fd, o, req, shuffle_seed):
+    """Every reader must yield exactly what it yields alone (o = the solo observation of this view)."""
+    problems = []
+    ids, sizes, clients = o['ids'], o['sizes'], o['clients']
+    n = len(ids)
+
+    def expect(name, got, want):
+      if got != want:
+        problems.append(f'{name}: {[g[0] if isinstance(g, list) else g for g in got]} instead of '
+                        f'{[w[0] if isinstance(w, list) else w for w in want]}'
+                        + ('' if [g[0] if isinstance(g, list) else g for g in got] !=
+                           [w[0] if isinstance(w, list) else w for w in want] else f' (payload differs: {got} vs {want})'))
+
+    def guarded(name, fn):
+      try:
+        fn()
+      except Exception as e:
+        problems.append(f'{name}: raised {exc_name(e)}: {str(e)[:120]}')
+
+    def two_a():
+      a, b = self._drain_zip(self._ids(fd.client_ids()), self._sizes(fd.client_sizes()))
+      expect('client_ids() zipped with client_sizes()', a, ids)
+      expect('client_sizes() zipped with client_ids()', b, sizes)
+
+    def two_b():
+      a, b = self._drain_zip(self._sizes(fd.client_sizes()), self._clients(fd.clients()))
+      expect('client_sizes() zipped with clients()', a, sizes)
+      expect('clients() zipped with client_sizes()', b, clients)
+
+    def two_c():
+      a, b = self._drain_zip(self._clients(fd.clients()), self._clients(fd.clients()))
+      expect('clients() zipped with a second clients()', a, clients)
+      expect('second clients() zipped with clients()', b, clients)
+
+    def three():
+      a, b, c = self._drain_zip(self._ids(fd.client_ids()), self._clients(fd.clients()),
+                                self._sizes(fd.client_sizes()))
+      expect('client_ids() in a 3-way zip', a, ids)
+      expect('clients() in a 3-way zip', b, clients)
+      expect('client_sizes() in a 3-way zip', c, sizes)
+
+    def suspended():
+      k = max(1, n // 2) if n else 0
+      it = self._clients(fd.clients())
+      head = list(itertools.islice(it, k))
+      expect('client_ids() pass while a clients() iterator is suspended', list(self._ids(fd.client_ids())), ids)
+      expect('clients() pass while a clients() iterator is suspended', list(self._clients(fd.clients())), clients)
+      if fd.num_clients() != o['num']:
+        problems.append('num_clients() changed while a clients() iterator is suspended')
+      got, err = [], None
+      try:
+        for c, d in fd.get_clients(ub(h) for h in req):
+          got.append(self.ds_obs(c, d))
+      except Exception as e:
+        err = exc_name(e)
+      if got != o['getN'] or err != o['getN_err']:
+        problems.append(f'get_clients({req}) while a clients() iterator is suspended: {got} / {err}')
+      expect('client_sizes() pass while a clients() iterator is suspended', list(self._sizes(fd.client_sizes())), sizes)
+      expect('a clients() iterator suspended across other passes', head + list(it), clients)
+      it2 = self._sizes(fd.client_sizes())
+      head2 = list(itertools.islice(it2, k))
+      expect('clients() pass while a client_sizes() iterator is suspended', list(self._clients(fd.clients())), clients)
+      expect('a client_sizes() iterator suspended across a clients() pass', head2 + list(it2), sizes)
+      it3 = self._ids(fd.client_ids())
+      head3 = list(itertools.islice(it3, k))
+      expect('client_sizes() pass while a client_ids() iterator is suspended', list(self._sizes(fd.client_sizes())), sizes)
+      expect('a client_ids() iterator suspended across a client_sizes() pass', head3 + list(it3), ids)
+
+    def stream():
+      if n == 0 or not clients:
+        return          # shuffled_clients never yields on an empty view (outside the property)
+      for buf in sorted({1, 2 if n > 2 else 1, n + 1}):
+        alone = list(itertools.islice(self._clients(fd.shuffled_clients(buf, shuffle_seed)), 2 * n + 1))
+        st = self._clients(fd.shuffled_clients(buf, shuffle_seed))
+        k = max(1, n // 2)
+        head = list(itertools.islice(st, k))
+        expect(f'clients() pass while a shuffled_clients({buf}) stream is open', list(self._clients(fd.clients())), clients)
+        mid = list(itertools.islice(st, n - k + 1))       # crosses the pass boundary
+        expect(f'client_sizes() pass while a shuffled_clients({buf}) stream is open',
+               list(self._sizes(fd.client_sizes())), sizes)
+        expect(f'client_ids() pass while a shuffled_clients({buf}) stream is open', list(self._ids(fd.client_ids())), ids)
+        tail = list(itertools.islice(st, n))
+        expect(f'a shuffled_clients({buf}, {shuffle_seed}) stream suspended across clients()/client_sizes() passes',
+               head + mid + tail, alone)
+        if sorted(alone[:n]) != sorted(clients) or sorted((head + mid + tail)[:n]) != sorted(clients):
+          problems.append(f'shuffled_clients({buf}): a pass interleaved with other readers is not every client once: '
+                          f'{[g[0] for g in (head + mid + tail)[:n]]}')
+        s1 = self._clients(fd.shuffled_clients(buf, shuffle_seed))
+        s2 = self._clients(fd.shuffled_clients(buf, shuffle_seed))
+        a, b = [], []
+        for _ in range(2 * n + 1):
+          a.append(next(s1))
+          b.append(next(s2))
+        expect(f'two shuffled_clients({buf}) streams advanced alternately (first)', a, alone)
+        expect(f'two shuffled_clients({buf}) streams advanced alternately (second)', b, alone)
+
+    for name, fn in (('zip(client_ids, client_sizes)', two_a), ('zip(client_sizes, clients)', two_b),
+                     ('zip(clients, clients)', two_c), ('3-way zip', three), ('suspended iterator', suspended),
+                     ('suspended shuffled stream', stream)):
+      guarded(name, fn)
+    return problems
+
+  def parent_child(self, parent, po, child, co):
+    """A derived view read while its parent is being read (and vice versa): both unchanged."""
+    problems = []
+
+    def expect(name, got, want):
+      if got != want:
+        problems.append(f'{name}: {[g[0] for g in got]} instead of {[w[0] for w in want]}'
+                        + ('' if [g[0] for g in got] != [w[0] for w in want] else ' (payload differs)'))
+    try:
+      pit = self._clients(parent.clients())
+      ph = list(itertools.islice(pit, 1))
+      cit = self._clients(child.clients())
+      ch = list(itertools.islice(cit, 1))
+      expect('child client_sizes() while parent and child clients() are open', list(self._sizes(child.client_sizes())), co['sizes'])
+      expect('parent client_sizes() while parent and child clients() are open', list(self._sizes(parent.client_sizes())), po['sizes'])
+      pz, cz = self._drain_zip(self._ids(parent.client_ids()), self._ids(child.client_ids()))
+      expect('parent client_ids() zipped with child client_ids()', [[x] for x in pz], [[x] for x in po['ids']])
+      expect('child client_ids() zipped with parent client_ids()', [[x] for x in cz], [[x] for x in co['ids']])
+      expect('child clients() opened while the parent was being read', ch + list(cit), co['clients'])
+      expect('parent clients() suspended while a child was derived and read', ph + list(pit), po['clients'])
+      pz, cz = self._drain_zip(self._clients(parent.clients()), self._clients(child.clients()))
+      expect('parent clients() zipped with child clients()', pz, po['clients'])
+      expect('child clients() zipped with parent clients()', cz, co['clients'])
+    except Exception as e:
+      problems.append(f'parent/child interleaving raised {exc_name(e)}: {str(e)[:120]}')
+    return problems
 
   def observe_shuffle(self, fd, n, buf, seed):
     it = fd.shuffled_clients(buf, seed)
@@ -295,7 +499,7 @@ class C08(core.Property):
         elif v < 0.32:
           pick = []
         rng.shuffle(pick)
-        op = [1, [hx(c) for c in pick]]
+        op = [1, [hx(c) for c in pick], rng.choice(CONTAINERS)]
       elif u < 0.85:
         op = [2, rng.choice([0, 1, 2, 3, 7, 7])]
       else:
@@ -307,12 +511,13 @@ class C08(core.Property):
            for _ in range(rng.randrange(0, 6))]
     probes = [hx(c) for c in rng.sample(cand, min(len(cand), rng.randrange(1, 5)))]
     return {'kind': 'ops', 'big': big, 'ops': ops, 'req': req, 'probes': probes,
-            'shuffle': [rng.choice([1, 2, 3, 5, 50]), rng.randrange(0, 1000)]}
+            'shuffle': [rng.choice([1, 2, 3, 5, 50]), rng.randrange(0, 1000)],
+            'root_container': rng.choice(CONTAINERS)}
 
   def gen_cases(self, rng, tier):
     if tier == 'thorough':
       yield from self.exhaustive()
-    n = 800 if tier == 'quick' else 6000
+    n = 560 if tier == 'quick' else 2400
     for i in range(n):
       if i % 9 == 8:
         yield {'kind': 'bshuffle', 'n': rng.choice([0, 1, 2, 3, 5, 8, 13, 30]), 'B': rng.choice([1, 2, 3, 4, 8, 40]),
@@ -330,15 +535,17 @@ class C08(core.Property):
     ids = [b'a', b'a\x00', b'b']
     bounds = [None, 'a'.encode().hex(), b'a\x00'.hex(), b'b'.hex(), b'c'.hex()]
     slices = [[0, s, e] for s in bounds for e in bounds]
-    others = [[1, [hx(b'a')]], [1, []], [1, [hx(b'a\x00'), hx(b'b')]], [2, 0], [2, 7], [3, 1]]
+    others = [[1, [hx(b'a')], 'gen'], [1, [], 'iter'], [1, [hx(b'a\x00'), hx(b'b')], 'base_ids_filter'],
+              [1, [hx(b'b'), hx(b'a\x00'), hx(b'b')], 'islice'], [2, 0], [2, 7], [3, 1]]
     for mask in range(8):
       big = [[hx(c), [10 * j + 1 + r for r in range(j + 1)], bool(mask >> j & 1)] for j, c in enumerate(ids)]
       big.reverse()
-      seqs = [[]] + [[a] for a in slices + others] + [[a, b] for a in slices for b in slices[::2] + others]
+      seqs = [[]] + [[a] for a in slices + others] + [[a, b] for a in slices for b in slices[::3] + others]
       seqs += [[a, b] for a in others for b in slices[1::3]]
       for ops in seqs:
         yield {'kind': 'ops', 'big': big, 'ops': ops, 'req': [hx(b'b'), hx(b'a'), hx(b'zz'), hx(b'a')],
-               'probes': [hx(b'a'), hx(b'a\x00'), hx(b'c')], 'shuffle': [2, 5]}
+               'probes': [hx(b'a'), hx(b'a\x00'), hx(b'c')], 'shuffle': [2, 5],
+               'root_container': CONTAINERS[(mask + len(ops)) % len(CONTAINERS)]}
     pool = [None] + [hx(b) for b in [b'', b'a', b'a\x00', b'b', b'\xff']]
     quads = [list(q) for q in itertools.product(pool, repeat=4)]
     for i in range(0, len(quads), 200):
@@ -378,7 +585,11 @@ class C08(core.Property):
           if op[j] is not None:
             yield {**case, 'ops': ops[:i] + [[0] + [None if jj == j else op[jj] for jj in (1, 2)]] + ops[i + 1:]}
       if op[0] == 1 and len(op[1]) > 0:
-        yield {**case, 'ops': ops[:i] + [[1, op[1][1:]]] + ops[i + 1:]}
+        yield {**case, 'ops': ops[:i] + [[1, op[1][1:]] + op[2:]] + ops[i + 1:]}
+      if op[0] == 1 and len(op) > 2 and op[2] != 'list':
+        yield {**case, 'ops': ops[:i] + [[1, op[1], 'list']] + ops[i + 1:]}
+    if case.get('root_container', 'list') != 'list':
+      yield {**case, 'root_container': 'list'}
 
   # ---------------------------------------------------------------- evaluation
   def evaluate(self, case, ctx):
@@ -388,13 +599,11 @@ class C08(core.Property):
       return self._eval_intersect(case, ctx)
     big, ops, req, probes = case['big'], case['ops'], case['req'], case['probes']
     table = [(h, r) for h, r, s in big if s]
-    problems, corr, key = [], [], None
+    problems, corr, corr_known, key = [], [], [], None
+    found = []          # (classifier key, message) of every oracle failure of this case
 
     def fail(k, msg):
-      nonlocal key
-      key = key or k
-      if len(problems) < 6:
-        problems.append(msg)
+      found.append((k, msg))
 
     # ---- expected mapping after every prefix (plain dict/set code)
     spec = PySpec(table)
@@ -418,7 +627,7 @@ class C08(core.Property):
     for kind in KINDS:
       fd, state = None, None
       try:
-        fd = self.root(kind, big)
+        fd = self.root(kind, big, case.get('root_container', 'list'))
       except Exception as e:
         state = 'ERR:' + exc_name(e)
       for step in range(len(ops) + 1):
@@ -432,7 +641,29 @@ class C08(core.Property):
           views[kind].append(None)
           continue
         try:
-          impl_obs[kind].append(self.observe(fd, req, probes))
+          o = self.observe(fd, req, probes)
+          o['interleave'] = self.interleave(fd, o, req, case['shuffle'][1])
+          prev = views[kind][-1] if views[kind] else None
+          o['parent_child'] = (self.parent_child(prev, impl_obs[kind][-1], fd, o)
+                               if prev is not None and prev is not fd else [])
+          # derive the same child again while the parent is being read: must be the same view
+          if prev is not None and step > 0:
+            pit = prev.clients()
+            next(pit, None)
+            try:
+              twin = self.apply_op(prev, ops[step - 1])
+              tw = self.observe(twin, [], [], light=True)
+              bad = [k for k in ('num', 'ids', 'sizes', 'clients') if tw[k] != o[k]]
+              if bad:
+                o['parent_child'].append('the same operation applied a second time, while the parent was being '
+                                         f'iterated, gives a view that differs on {bad}: '
+                                         f'{ {k: tw[k] for k in bad} } vs { {k: o[k] for k in bad} }')
+            except Exception as e:
+              o['parent_child'].append(f'deriving the view while the parent was being iterated raised {exc_name(e)}')
+            rest = [self.ds_obs(c, d) for c, d in pit]
+            if impl_obs[kind][-1]['clients'][1:] != rest:
+              o['parent_child'].append('the parent clients() iterator changed because a view was derived meanwhile')
+          impl_obs[kind].append(o)
           views[kind].append(fd)
         except Exception as e:
           impl_obs[kind].append('OBS-ERR:' + exc_name(e))
@@ -465,6 +696,12 @@ class C08(core.Property):
                           f'subset {exp["ids"]}')
         if sorted(o['clients']) != exp['clients']:
           fail('C08/clients', f'{kind} {where}: clients() {sorted(o["clients"])[:3]} != expected {exp["clients"][:3]}')
+        for msg in o.get('interleave', [])[:2]:
+          fail('C08/interleave', f'{kind} {where}: {msg}')
+        for msg in o.get('parent_child', [])[:2]:
+          fail('C08/parent-child-interleave', f'{kind} {where}: {msg}')
+        for msg in o.get('getN_forms', [])[:2]:
+          fail('C08/get_clients/iterable', f'{kind} {where}: {msg}')
         if not o['repeat_ok']:
           fail('C08/determinism', f'{kind} {where}: a second iteration differs from the first')
         if sorted(c for c, _ in o['sizes']) != exp['ids'] or len(o['sizes']) != len(exp['ids']):
@@ -527,6 +764,10 @@ class C08(core.Property):
       for kind in KINDS:
         fd = views[kind][-1]
         if fd is None:
+          continue
+        if not impl_obs[kind][-1]['clients']:
+          # the view wrongly exposes no clients (already reported above); its stream would never yield
+          fail('C08/shuffled', f'{kind}: shuffled_clients not observed: clients() of the view is empty')
           continue
         try:
           p1, p2, again = self.observe_shuffle(fd, len(final['ids']), buf, seed)
@@ -593,8 +834,15 @@ class C08(core.Property):
                  'probes': o['probes']}
         if canon != m:
           diff = [k for k in canon if canon[k] != m[k]]
-          corr.append(f'{kind} after {step} ops: impl and model differ on {diff}: '
-                      f'{ {k: canon[k] for k in diff} } vs { {k: m[k] for k in diff} }')
+          text = (f'{kind} after {step} ops: impl and model differ on {diff}: '
+                  f'{ {k: canon[k] for k in diff} } vs { {k: m[k] for k in diff} }')
+          # the recorded finding (in-memory sizes count preprocessed rows) shows up here as a size-only difference
+          if (kind in ('mem', 'submem') and set(diff) <= {'sizes', 'probes'} and
+              len(canon['probes']) == len(m['probes']) and
+              all(a[1] == b[1] for a, b in zip(canon['probes'], m['probes']))):
+            corr_known.append(text)
+          else:
+            corr.append(text)
         if any(len(d) > 3 and d[3] is not True for d in o['clients']):
           corr.append(f'{kind} after {step} ops: second feature lost its rows/dtype/shape')
 
@@ -618,6 +866,23 @@ class C08(core.Property):
       tags.append('trailing0-ids')
     if any(not isinstance(o, str) and o['getN_err'] for o in impl_obs['sql']):
       tags.append('bulk-get-KeyError')
+    # classification: a failure other than the recorded size finding always takes precedence, and a
+    # disagreement that the recorded finding does not explain is never hidden behind it
+    other = [(k, m) for k, m in found if k != KNOWN_SIZE_KEY]
+    sized = [(k, m) for k, m in found if k == KNOWN_SIZE_KEY]
+    if other:
+      key = other[0][0]
+      problems = [m for _, m in other] + [m for _, m in sized]
+      corr = corr + corr_known
+    elif sized:
+      if corr:
+        problems, key = [], None        # report the unexplained disagreement; the finding is hit by other cases
+      else:
+        key = KNOWN_SIZE_KEY
+        problems = [m for _, m in sized]
+        corr = corr_known
+    else:
+      corr = corr + corr_known
     return Outcome(oracle_fail='; '.join(problems[:4]) or None, corr_fail='; '.join(corr[:3]) or None, key=key,
                    nontrivial=len(table) >= 2 and len(ops) >= 2 and removed, tags=tuple(tags),
                    detail={'impl_final': {k: impl_obs[k][-1] for k in KINDS}, 'expected_final': {
